@@ -308,11 +308,30 @@ def modelO (arg : String) : String :=
         | none => "MODEL:opt"
       else model (renderReq r o.song rest)
 
+/-- is this optimised case an instance of `C02_optimised_song_roundtrip_nodrum_partial` /
+`C03_optimised_song_wellformed_partial`: the original song meets C01's hypotheses and has no drum
+mode (`Fragment.optOriginalB`), the optimiser model's run validates, its result is in the fragment
+with every channel track in the domain, and the constructor model assembles from it exactly the real
+bytes (`provedInstance` on the optimised song) -/
+def provedInstanceO (ms : Int) (r : Req) (seq : List Nat) : Bool :=
+  match Opt.optimize validAll ms 100000 r.song (Opt.initialSubId r.song) [] with
+  | .ok o =>
+    o.validated && Fragment.optOriginalB r.song (Opt.initialSubId r.song) o.passes.length &&
+      ((o.song.tracks.filter (·.1 < 16)).all fun (_, root) => Timeline.inDomain o.song root) &&
+      provedInstance { r with song := o.song } seq
+  | .error _ => false
+
 /-- C02 on optimised songs: the bytes of the optimised song must play the ORIGINAL song -/
-def judgeO (arg impl : String) : String :=
-  let (_, rest) := splitScore arg
+def judgeO (useModel : Bool) (arg impl : String) : String :=
+  let (ms, rest) := splitScore arg
   if impl.startsWith "opterr:" ∨ impl.startsWith "optexc:" then "skip"   -- C01's subject
-  else judgeC02 rest impl false
+  else
+    let j := judgeC02 rest impl false
+    if j == "ok" && useModel then
+      match parseReq rest, (field impl "seq=").bind bytesOfHexNat with
+      | some r, some seq => if provedInstanceO ms r seq then "ok proved-fragment (optimised)" else j
+      | _, _ => j
+    else j
 
 /-- the optimised song as the model computes it (`none`: the optimiser model fails or the result does not validate) -/
 def optimised (ms : Int) (r : Req) : Option Song :=
@@ -334,15 +353,22 @@ def judgeWfO (useModel : Bool) (arg impl : String) : String :=
     | none => "skip"
     | some r =>
       match (if useModel then optimised ms r else none) with
-      | some song => judgeC03 (renderReq r song rest) impl
+      | some song =>
+        let j := judgeC03 (renderReq r song rest) impl
+        if j == "ok proved-fragment" then
+          -- an instance of `C03_optimised_song_wellformed_partial` needs C01's hypotheses on the original song as well
+          match (field impl "seq=").bind bytesOfHexNat with
+          | some seq => if provedInstanceO ms r seq then "ok proved-fragment (optimised)" else "ok"
+          | none => "ok"
+        else j
       | none =>
         let j := judgeC03 rest impl
         if j == "ok proved-fragment" then "ok" else j
 
 def handlers : List Driver.Handler :=
   [{ cmd := "conv", model := model, judge := fun a i => judgeC02 a i },
-   { cmd := "convo", model := modelO, judge := judgeO },
-   { cmd := "convox", model := fun _ => optModelDeclines, judge := judgeO },
+   { cmd := "convo", model := modelO, judge := judgeO true },
+   { cmd := "convox", model := fun _ => optModelDeclines, judge := judgeO false },
    { cmd := "convwf", model := model, judge := judgeC03 },
    { cmd := "convwfo", model := modelO, judge := judgeWfO true },
    { cmd := "convwfox", model := fun _ => optModelDeclines, judge := judgeWfO false }]
